@@ -56,7 +56,7 @@ class Degrees:
                 result = d
             elif isinstance(st, ast.Expr) and isinstance(st.value, ast.Constant):
                 continue
-            elif isinstance(st, (ast.Pass, ast.Assert)):
+            elif isinstance(st, (ast.Pass, ast.Assert, ast.Import, ast.ImportFrom)) or U.is_inert_output(st) or U.is_raise_guard(st):
                 continue
             else:
                 raise Unknown(f'statement {type(st).__name__} at line {st.lineno}')
